@@ -206,7 +206,9 @@ func c12Judge(c c12Case) (clause, detail string) {
 			if err != nil {
 				return "multistatus", err.Error()
 			}
-			exact := (c.Level == 1 && c.Path == l.Principal) || (c.Level == 2 && c.Path == l.HomeSet) || c.Level == 0
+			// "with or without a trailing slash": both spellings of the own principal / home set address it
+			twin := func(a, b string) bool { return strings.TrimSuffix(a, "/") == strings.TrimSuffix(b, "/") }
+			exact := (c.Level == 1 && twin(c.Path, l.Principal)) || (c.Level == 2 && twin(c.Path, l.HomeSet)) || c.Level == 0
 			if exact && len(ms.Responses) == 0 {
 				return "own-resource-not-found", fmt.Sprintf("PROPFIND %q (level %d) returned no response", c.Path, c.Level)
 			}
@@ -573,7 +575,9 @@ func init() {
 		for _, kind := range []string{"caldav", "carddav"} {
 			for _, pf := range prefixes {
 				l := c12LayoutFor(pf)
-				for _, t := range []string{l.P + "/v/", l.P + "/v", l.P + "/v/c/", l.P + "/u/d/", l.P + "/u/d", l.P + "/u", l.P + "/u/c",
+				for _, t := range []string{l.P + "/v/", l.P + "/v", l.P + "/v/c/", l.P + "/u/d/", l.P + "/u/d",
+					// (the no-slash spellings of the own principal and home set are NOT foreign: "with or without a
+					// trailing slash" - the first session had listed them here, pinning what the code did)
 					// foreign principals / home sets whose names extend or are extended by the current user's
 					l.P + "/u2/", l.P + "/u-admin/", l.P + "/u.old", l.P + "/u/c2/", l.P + "/u/c.bak/", l.P + "/u2/c/"} {
 					for _, d := range []string{"0", "1", "infinity"} {
